@@ -10,6 +10,7 @@ import (
 	"path/filepath"
 	"slices"
 	"strings"
+	"syscall"
 	"time"
 
 	"github.com/go-git/go-billy/v6/util"
@@ -775,7 +776,8 @@ func (w *Worktree) deleteFromIndex(idx *index.Index, path string) (plumbing.Hash
 
 func (w *Worktree) deleteFromFilesystem(path string) error {
 	err := w.filesystem.Remove(path)
-	if os.IsNotExist(err) {
+	if os.IsNotExist(err) || errors.Is(err, syscall.ENOTDIR) {
+		// not there, or a leading directory is a file by now
 		return nil
 	}
 
